@@ -25,6 +25,110 @@ CLAIMED = {
         design_ref="5 C10"),
 }
 
+
+LOOP_NOTE = ("Stand-ins with ASSUMED contracts replace, by exact pinned text, what Verus cannot take: one round of sampling (barrier + "
+             "record_sample closure + ThreadPool::par_extend), the iterator max/max_by_key expressions, the per-input counter loop, clock and "
+             "precision reads; a change to a pinned fragment makes the check undecided (exit 2), not green. Termination is not proved. T > 1 on "
+             "real threads, CLI/env/attribute plumbing of n, s, T and what happens inside a round are out of scope (C01/C02/C06-C08/C15).")
+
+CLAIMED.update({
+    "C03": dict(
+        category="proof",
+        text=("Verus proves loop invariants and final assertions on the real text of BenchContext::bench_loop_threaded (extracted on every "
+              "run, for explicit sample size or test mode): test mode makes exactly one round of one call per thread and stores nothing; "
+              "zero max_time / sample_count / sample_size returns before any call (BenchOptions::has_samples and initial_mode under "
+              "contract); in bench mode every round records T samples of s calls, the remaining-sample counter is n - T*rounds saturating, "
+              "the loop stops at the least round at which the rule says stop, and a lemma concludes: with no time limit reached, exactly "
+              "ceil(n/T) rounds, T*ceil(n/T) samples, s*T*ceil(n/T) calls. Canary files (assert(false) at six program points) must fail."),
+        note=LOOP_NOTE,
+        technique="Verus loop invariants over a ghost history on the extracted sampling loop; Kani complete harnesses for the helpers",
+        design_ref="5 C03"),
+    "C04": dict(
+        category="proof",
+        text=("Same extracted loop, with the conjuncts C04 needs: every executed round was preceded by a 'continue' verdict of the rule "
+              "el < max_time and (samples expected or el < min_time), the loop exits exactly when the rule first says stop (max_time has "
+              "priority), and elapsed time after each round is dur(initial start, latest end of the newest round) or, with skip_ext_time, the "
+              "saturating running sum of max(slowest sample, 1 ns). BenchOptions::min_time/max_time are checked by a complete Kani harness."),
+        note=LOOP_NOTE,
+        technique="Verus loop invariants over a ghost history on the extracted sampling loop",
+        design_ref="5 C04"),
+    "C19": dict(
+        category="proof",
+        text=("Same extracted loop for tuned runs (no sample_size): sizes are 1, 2, 4, ... doubling each round while the slowest sample / "
+              "timer precision <= 100, the first round exceeding 100 becomes the first recorded one and its size is kept, samples of earlier "
+              "rounds are cleared (SampleCollection::clear: timings and allocation map) before it is stored, recorded = T * (rounds - first), "
+              "and max_time is checked before every tuning round. ENVIRONMENT ASSUMPTION: a sample of >= 2^31 iterations outlasts 101 x "
+              "precision (so doubling cannot overflow u32)."),
+        note=LOOP_NOTE,
+        technique="Verus loop invariants over a ghost history on the extracted sampling loop",
+        design_ref="5 C19"),
+    "C05": dict(
+        category="proof",
+        text=("Verus proves contracts on the helpers (util::slice_middle returns exactly the one or two middle elements for every length, "
+              "FineDuration::clamp_to/is_zero, SampleCollection::clear/iter_count). The real BenchContext::compute_stats is checked by Kani "
+              "only BOUNDED (0, 1 samples quick; 2-4 thorough) over symbolic 128-bit durations: exact min/max/median/mean per iteration, "
+              "orderings, sample_count/iter_count, no panic, no NaN incl. zero samples; and, with distinct per-sample tallies in a symbolic "
+              "order, that allocation and counter figures are those of the samples that supplied the time."),
+        note=("compute_stats is closure/iterator/HashMap code outside Verus; only the helpers are proved unbounded, the function itself is a "
+              "bounded stand-in (not counted as discharged obligations). HashMap seeding is stubbed (RandomState::new -> zero keys). Printing is "
+              "not checked. The zero-sample panic/NaN defect found here was repaired by a fix: commit (known_findings.txt)."),
+        technique="Verus contracts on helper functions + bounded Kani harnesses on compute_stats",
+        design_ref="5 C05"),
+    "C09": dict(
+        category="proof",
+        text=("Five loop-free Kani harnesses over the full input domain on the real <AllocProfiler<A> as GlobalAlloc> with a recording mock A: "
+              "for alloc, alloc_zeroed, realloc, dealloc with any valid Layout, pointer, new size and any scripted return value (null "
+              "included): exactly one call reaches the wrapped allocator, same method, same arguments, result returned unchanged, and the "
+              "request is tallied as the operation it is; any two consecutive requests behave the same."),
+        note=("'Never allocates / re-enters' and thread start-up/tear-down are undecided (Kani's own allocator model; no threads). Sequences "
+              "longer than two rest on the profiler having no state but the tally."),
+        technique="Kani complete (loop-free, full-domain) harnesses with a mock inner allocator",
+        design_ref="5 C09"),
+    "C11": dict(
+        category="proof",
+        text=("Verus proves on the real TscTimestamp::duration_since: result == floor((b-a)*10^12/f) for b >= a, 0 otherwise, no overflow over "
+              "the whole u64 range, and lemmas from that contract alone: monotone in b, additive within 1 ps per term, translation "
+              "invariant. Kani (complete): the enum-level dispatch passes (later, earlier, frequency) through unchanged, <FineDuration as "
+              "From<Duration>> is nanos*1000 for every Duration, derived Default is 0; the same floor formula on compiled code full-range "
+              "(thorough tier, ~9 min) and within a 2^16 window (quick tier, bounded, counterexample source)."),
+        note=("Precision-equals-step (Timer::measure_precision) and the Os timer arm (std Instant) are undecided. One trusted spec (derived "
+              "Default) is Kani-checked."),
+        technique="Verus contract + arithmetic lemmas on extracted code; Kani complete harnesses",
+        design_ref="5 C11"),
+    "C13": dict(
+        category="model_checking",
+        text=("Bounded Kani harnesses on the real code: FilterSet::include/exclude/is_match over up to 5 filters in any insertion order with "
+              "symbolic per-filter verdicts implement the rule (no skip filter matches, and no positive filters or one matches); "
+              "SplitVec::insert keeps skip entries before the split for every order; Filter::Exact is whole-string equality; "
+              "EntryTree::retain on a small tree asks exactly the paths m::a, m::b::1, m::b::22 once each, decides per case and prunes empty "
+              "parents. No unbounded proof: iterator adapters, raw pointers and format! are outside Verus."),
+        note="Regex semantics (regex-lite), CLI-to-filter plumbing and larger trees are undecided. All units are bounded stand-ins.",
+        technique="bounded Kani harnesses (bounded stand-in only)",
+        design_ref="5 C13"),
+    "C15": dict(
+        category="proof",
+        text=("Six loop-free (constant 4-element loops) Kani harnesses over the full input domain on the real BenchOptions::overwrite, "
+              "CounterSet::overwrite/insert/to_collection, CounterCollection::set_counter, RunIgnored::should_run and Divan::should_ignore: "
+              "each of the 8 option fields and each counter kind resolves independently to the first level that sets it, composed as "
+              "runner.overwrite(bench.overwrite(group)); a counter replaces only its own kind; the ignore decision matches the statement for "
+              "all flag/ignore combinations."),
+        note=("CLI flag / DIVAN_* env / builder populating the runner options (clap), attribute parsing (proc macro), thread-list "
+              "normalisation in run_bench_entry and the defaults are undecided here."),
+        technique="Kani complete (loop-free, full-domain) harnesses",
+        design_ref="5 C15"),
+    "C18": dict(
+        category="proof",
+        text=("Integer core only. Verus proves on extracted code: TimeScale::from_picos is the largest unit not exceeding the value, "
+              "TimeScale::picos its size, and the integer core of <FineDuration as Display>::fmt (region; float division and string building "
+              "replaced by a data carrier) picks the unit by the stated rule (sub-ns shown in ns when > 3 figures), never overflows for "
+              "precision <= 10, and passes exactly floor(value_in_unit * 10^p) (or whole days beyond DAY*10^p), which is < 2^53 for p <= 4. "
+              "Kani (complete): suffixes, from_picos on compiled code, util::fmt::scale_value's prefix for every f64."),
+        note=("f64::to_string and the digit truncation in format_f64 are NOT decided: a change confined to format_f64 is not detected. "
+              "Throughput float arithmetic and width/fill handling are not under contract."),
+        technique="Verus contracts on extracted functions and one region; Kani complete harnesses",
+        design_ref="5 C18"),
+})
+
 NOT_APPLICABLE = {
     "C06": "concurrency (happens-before, all interleavings): Kani has no thread support and ICEs on the catch_unwind this code uses; Verus would need the pool rewritten onto its permission/atomic types, i.e. a model, which is a different family",
     "C07": "liveness / lost wake-ups under all interleavings: not expressible as a function contract with the installed verifiers",
